@@ -9,7 +9,7 @@ ALL = ["C%02d" % i for i in range(1, 21)]
 CHECKS = {
     "C04": {
         "technique": "Lean 4 proof (generic release lemmas for try/finally + closeSrc/closeAll, instantiated per tool, for every world) + model/implementation correspondence + direct oracle on instrumented sources",
-        "text": "Lean theorems C04_<tool> for filter, filterfalse, enumerate, takewhile, dropwhile, starmap, accumulate, batched, islice, pairwise, zip, zip(strict), map, zip_longest, compress, merge, chain (C04_chain_exhausted: run to its end; C04_chain_closed: closed by its consumer, also inputs never reached) and the aggregations all, any, sum, min/max, reduce, list, tuple, nlargest/nsmallest: in EVERY world (every input, every fault position in sources/callables, consumer exhausting / closing after any number of items / throwing after any number of items) every source handed to the tool ends Released (async generator: closed, exhausted or finished by its own failure; class-based iterator with aclose: aclose() called or StopAsyncIteration delivered), provided the model did not run out of fuel. cycle and sorted (the scope is not the outermost construct), chain ended by an error (open finding D19), set/dict (outside the value model), tee and groupby handles are not proved; they are covered by correspondence + oracle (tee by C09). On every run the real tools are driven over all tools x parameter grid x item sequences x {exhaust, every close cut, every throw cut} x every single fault position with async-generator and class-based sources and the release predicate is checked on the real objects.",
+        "text": "Lean theorems C04_<tool> for filter, filterfalse, enumerate, takewhile, dropwhile, starmap, accumulate, batched, islice, pairwise, zip, zip(strict), map, zip_longest, compress, merge, cycle, chain (C04_chain_exhausted: run to its end; C04_chain_closed: closed by its consumer, also inputs never reached) and the aggregations all, any, sum, min/max, reduce, list, tuple, sorted, nlargest/nsmallest: in EVERY world (every input, every fault position in sources/callables, consumer exhausting / closing after any number of items / throwing after any number of items) every source handed to the tool ends Released (async generator: closed, exhausted or finished by its own failure; class-based iterator with aclose: aclose() called or StopAsyncIteration delivered), provided the model did not run out of fuel; Properties/C04Fuel.lean discharges that proviso: 25 corollaries C04_<tool>_total state the release for EVERY world and every fuel >= (sum of the) script length(s) + 1 (Proofs/FuelAdequate.lean proves, with a small Hoare-style calculus over the model's loops, that this much fuel is always adequate; its constant is tight). cycle and sorted release their source although the scope is not their outermost construct (C04_cycle, C04_sorted: what follows the scope never touches a source; C04_cycle_total needs a consumer that ends after finitely many items — cycle diverges otherwise, as in Python). chain ended by an error (open finding D19), set/dict (outside the value model), tee and groupby handles are not proved; they are covered by correspondence + oracle (tee by C09). On every run the real tools are driven over all tools x parameter grid x item sequences x {exhaust, every close cut, every throw cut} x every single fault position with async-generator and class-based sources and the release predicate is checked on the real objects.",
         "note": "Hypothesis H-close: a user aclose() neither raises nor suspends. The fuel proviso (result is not outOfFuel) is a model artefact; non-occurrence for fuel > total script length is validated by the correspondence, not proved. Parameter-validation errors (batched n<1) are outside the property's wording. Known finding D19 (open): chain() raising while later iterables were never started leaves them unreleased until chain.aclose(); the check verifies they are released after the owner's aclose().",
     },
     "C06": {
@@ -19,7 +19,7 @@ CHECKS = {
     },
     "C05": {
         "technique": "Lean 4 proof (twin theorems: asyncstdlib model vs CPython-algorithm model equal on the whole visible event log for every world) + model/implementation and spec/stdlib correspondence",
-        "text": "For filter, filterfalse, enumerate, takewhile, starmap, accumulate, batched, pairwise, cycle, chain, compress, dropwhile, zip, zip(strict), map, zip_longest, merge, iter(callable, sentinel), all, any: Lean theorems C05_<tool> state that in EVERY world (every input script incl. faults, every number of consumer steps, every consumer ending) the model of asyncstdlib's code and the model of the CPython algorithm produce the same outcome and the same interleaved log of pulls, end-of-source detections, callable invocations with arguments/results and yields. islice is modelled and correspondence-checked but its twin theorem is not proved (different loop structure and fuel discipline); its value theorem is C01_islice; tee children are C09's machine. Both models are tied on every run: asyncstdlib vs Impl model and real itertools/builtins vs Std model, event for event, over all tools x parameter grid x all item sequences (L<=3/4) x every consumer cut point, plus random cases.",
+        "text": "For filter, filterfalse, enumerate, takewhile, starmap, accumulate, batched, pairwise, cycle, chain, compress, dropwhile, zip, zip(strict), map, zip_longest, merge, iter(callable, sentinel), all, any: Lean theorems C05_<tool> state that in EVERY world (every input script incl. faults, every number of consumer steps, every consumer ending) the model of asyncstdlib's code and the model of the CPython algorithm produce the same outcome and the same interleaved log of pulls, end-of-source detections, callable invocations with arguments/results and yields. islice's two loop structures burn the model's fuel at different rates, so it is a twin UP TO FUEL: C05_islice (whenever neither run hits the fuel bound: same outcome, same log, for every start/stop/step>=1, world and consumer) with C05_islice_fueled (unconditional for fuel > script length, via islice_impl/std_fuel_adequate); tee children are C09's machine. Both models are tied on every run: asyncstdlib vs Impl model and real itertools/builtins vs Std model, event for event, over all tools x parameter grid x all item sequences (L<=3/4) x every consumer cut point, plus random cases.",
         "note": "Trusted: Lean kernel; axioms propext/Quot.sound; the Std twins are hand-written from CPython 3.12 C sources and validated only by sampling against the real stdlib; the reference for batched is the 3.13 algorithm (3.12.1 polls the exhausted iterator once more after a short final batch). Pulls of real list arguments are unobservable and excluded. Tools without a proved twin are covered by correspondence + direct oracle only.",
     },
     "C14": {
